@@ -7,6 +7,7 @@ fn main() {
     let args: Vec<String> = std::env::args().collect();
     let r = match args.get(1).map(|s| s.as_str()) {
         Some("sem") if args.len() == 4 => sem::run(&args[2], &args[3]),
+        Some("dups") => { debug_dups(&args[2..]); Ok(()) }
         Some("probe") if args.len() == 3 => sem::probe(&args[2]),
         Some("describe") if args.len() == 4 => {
             // describe <format> <file>: print the network description JSON
@@ -20,5 +21,30 @@ fn main() {
     if let Err(e) = r {
         eprintln!("hctl-conf: {e}");
         std::process::exit(2);
+    }
+}
+
+#[allow(dead_code)]
+pub fn debug_dups(formulas: &[String]) {
+    use biodivine_hctl_model_checker::evaluation::mark_duplicates::mark_duplicates_canonized_multiple;
+    use biodivine_hctl_model_checker::preprocessing::parser::parse_extended_formula;
+    let bn = biodivine_lib_param_bn::BooleanNetwork::try_from("a -?? b\nb -?? a\n").unwrap();
+    let ctx = biodivine_lib_param_bn::symbolic_async_graph::SymbolicContext::new(&bn).unwrap();
+    let trees: Vec<_> = formulas
+        .iter()
+        .map(|f| {
+            biodivine_hctl_model_checker::preprocessing::utils::validate_props_and_rename_vars(
+                parse_extended_formula(f).unwrap(),
+                &ctx,
+            )
+            .unwrap()
+        })
+        .collect();
+    for t in &trees {
+        println!("{t}");
+    }
+    let d = mark_duplicates_canonized_multiple(&trees);
+    for (k, v) in d {
+        println!("{:?} -> {}", k, v);
     }
 }
